@@ -367,21 +367,33 @@ pub fn family_chain(k: usize, pattern: &[B], imm_every: usize) -> Prog {
     p
 }
 
+/// An out-of-line call in the JIT: a unary libm function, or a binary one
+/// (atan2, mod) applied to (value, y)
+#[derive(Copy, Clone, Debug)]
+pub enum CallOp {
+    Un(U),
+    Bin(B),
+}
+
 /// Choice clauses separated by out-of-line calls: c1 = inner(h(x), y),
-/// c2 = outer(g(c1), z-or-const), c3 = inner(k(c2) , x): call, choice, call,
+/// c2 = outer(g(c1), x-or-const), c3 = inner(y, h(c2)): call, choice, call,
 /// choice, call, choice in evaluation order (JIT call-outs sit between the
 /// writes to the choice array)
-pub fn calls_between_choices(inner: B, outer: B, h: U, g: U, third: bool, imm: bool) -> Prog {
+pub fn calls_between_choices(inner: B, outer: B, h: CallOp, g: CallOp, third: bool, imm: bool) -> Prog {
     let mut p = Prog::default();
     let x = p.push(POp::Var(0));
     let y = p.push(POp::Var(1));
-    let t1 = p.push(POp::Un(h, x));
+    let call = |p: &mut Prog, c: CallOp, a: usize| match c {
+        CallOp::Un(u) => p.push(POp::Un(u, a)),
+        CallOp::Bin(b) => p.push(POp::Bin(b, a, y)),
+    };
+    let t1 = call(&mut p, h, x);
     let c1 = p.push(POp::Bin(inner, t1, y));
-    let t2 = p.push(POp::Un(g, c1));
+    let t2 = call(&mut p, g, c1);
     let rhs = if imm { p.push(POp::Const(0.5)) } else { x };
     let c2 = p.push(POp::Bin(outer, t2, rhs));
     let root = if third {
-        let t3 = p.push(POp::Un(h, c2));
+        let t3 = call(&mut p, h, c2);
         p.push(POp::Bin(inner, y, t3))
     } else {
         c2
